@@ -96,6 +96,8 @@ VARIANTS = [
     V( 'bundle-status-from-members', DEVICE, "r.input = bytearray( Object.produce( r ))\n data.status = 0x00", "r.input	= bytearray( Object.produce( r ))\n                data.status	= 0x1E if any( m.get( 'status' ) for m in data.multiple.request ) else 0x00", fires=[ 'P-EACH' ] ),
     V( 'load-complete-without-queue-test', HFILES, "self.state = self.EXHAUSTED, \"Playback completing: %s\" % exc", "if not self.lookahead:\n                    self.state	= self.COMPLETE, \"Playback complete: %s\" % exc\n                    continue\n                self.state	= self.EXHAUSTED, \"Playback completing: %s\" % exc", fires=[ 'H-LOAD' ] ),
     V( 'close-switches-dialect-under-lock', CLIENT, "dialect_bak,self.dialect= getattr( self, 'dialect', None ),device.Connection_Manager\n try:", "dialect_bak		= getattr( self, 'dialect', None )\n        try:\n            with self:\n                self.dialect	= device.Connection_Manager", fires=[ 'P-GATEWAY' ] ),
+    V( 'session-release-only-on-some-ways-out', MAIN, "try:\n enip_process( addr, data=dotdict() )\n except Exception as exc:\n log.detail( \"%s session clean-up failed: %s\", name, exc )", "pass", fires=[ 'K-RELEASE' ], why='defect CZ' ),
+    V( 'session-release-unprotected', MAIN, "try:\n enip_process( addr, data=dotdict() )\n except Exception as exc:\n log.detail( \"%s session clean-up failed: %s\", name, exc )", "enip_process( addr, data=dotdict() )", fires=[ 'K-RELEASE' ] ),
     V( 'struct-index-not-scaled', AUTO, "beg = self.offset + self.index * siz", "beg			= self.offset + self.index", fires=[ 'T-TYPES' ] ),
     V( 'struct-class-format-compiled', AUTO, "self._struct = struct.Struct( self.struct_format )", "self._struct		= struct.Struct( type( self ).struct_format )", fires=[ 'T-TYPES' ] ),
     V( 'struct-unpack-at-offset', AUTO, "buf = data[ours+self._input][beg:end]\n val = self._struct.unpack_from( buffer=buf )[0]",
